@@ -6932,6 +6932,9 @@ class SFTPServerHandler(SFTPHandler):
             version = packet.get_uint32()
             rcvd_extensions: List[Tuple[bytes, bytes]] = []
 
+            if version < MIN_SFTP_VERSION:
+                raise SFTPBadMessage(f'Unsupported version: {version}')
+
             if version == 3:
                 while packet:
                     name = packet.get_string()
